@@ -28,8 +28,9 @@ func newLinearInterpolator(seq Sequence) linearInterpolator {
 func (l linearInterpolator) interpolate(frac float64) Point {
 	frac = math.Max(0, math.Min(1, frac))
 	idx := sort.SearchFloat64s(l.cumulative, frac*l.total)
-	if idx == l.seq.Length() {
-		return l.seq.Get(idx - 1).AsPoint()
+	if idx >= len(l.cumulative) {
+		// Past the last segment (or frac is NaN, or there is only one point).
+		return l.seq.Get(l.seq.Length() - 1).AsPoint()
 	}
 
 	p0 := l.seq.Get(idx + 0)
@@ -39,7 +40,12 @@ func (l linearInterpolator) interpolate(frac float64) Point {
 	if idx-1 >= 0 {
 		partial -= l.cumulative[idx-1]
 	}
-	partial /= p0.XY.distanceTo(p1.XY)
+	segLen := p0.XY.distanceTo(p1.XY)
+	if segLen == 0 {
+		// Zero length segment: every fraction of it is the same location.
+		return p0.AsPoint()
+	}
+	partial /= segLen
 
 	return interpolateCoords(p0, p1, partial).AsPoint()
 }
